@@ -240,7 +240,10 @@ def kmeans_mstep_code(ctx):
 
 
 GROUPS = [guard(gmm_likelihood), guard(mstep_equivariance), guard(scoring_invariance), guard(kmeans_equivariance), guard(kmeans_mstep_code)]
-BOUNDED = [bounded("fa_repro.py", "affine", "C15.fa",
+BOUNDED = [bounded("gmm_repro.py", "affine", "C15.gmm.native",
+                   "native float64: GMM log-likelihoods shift by -Σlog|a|, ML/MAP-trained parameters follow x -> a x + b, and likelihoods / occupations of "
+                   "NumPy and Dask input are unchanged when features and means are shifted to offset/std ~ 1e7 (tolerance 1e-5)"),
+           bounded("fa_repro.py", "affine", "C15.fa",
                    "ISV/JFA: enrolled speaker/offset factors, channel factors and scores are unchanged under per-feature x -> a x + b "
                    "(a of both signs and different magnitudes) with UBM, U, V, D transformed accordingly")]
 SHARED = [("C01", "lwl_post", ["C01.lwl.post"]), ("C01", "ll_post", ["C01.ll.post"]), ("C02", "estep_post", ["C02.estep.n", "C02.estep.sum_px", "C02.estep.sum_pxx"]),
@@ -253,7 +256,7 @@ SHARED = [("C01", "lwl_post", ["C01.lwl.post"]), ("C01", "ll_post", ["C01.ll.pos
           ("C06", "loop_thr_max", ["C06.loop.body[thr=set,max=set]", "C06.loop.break-post[thr=set,max=set]", "C06.loop.preserve[thr=set,max=set]"]),
           ("C03", "loop_thr_max", ["C03.loop.body[thr=set,max=set]", "C03.loop.break-post[thr=set,max=set]", "C03.loop.preserve[thr=set,max=set]"]),
           ("C09", "msteps", ["C09.U.mstep", "C09.V.mstep", "C09.D.mstep"]), ("C09", "esteps", ["C09.estep.V", "C09.estep.U", "C09.estep.D"]), ("C09", "finalizers", ["C09.finalize.V", "C09.finalize.U"])]
-REPLAY = [("C15.kmeans", "kmeans_repro.py", "affine", {}), ("C06", "kmeans_repro.py", "affine", {}), ("C20", "kmeans_repro.py", "affine", {}), ("C03", "gmm_repro.py", "ml_mstep", {}), ("C05", "gmm_repro.py", "map_mstep", {}), ("C07", "fa_repro.py", "phases", {}), ("C09", "fa_repro.py", "phases", {}), ("C15.lwl", "gmm_repro.py", "affine", {}), ("C15.estep", "gmm_repro.py", "affine", {}), ("C15.ml", "gmm_repro.py", "affine", {}), ("C15.fa", "fa_repro.py", "affine", {}), ("C15.map", "gmm_repro.py", "map_mstep", {}), ("C15", "gmm_repro.py", "affine", {})]
+REPLAY = [("C15.gmm", "gmm_repro.py", "affine", {}), ("C15.kmeans", "kmeans_repro.py", "affine", {}), ("C06", "kmeans_repro.py", "affine", {}), ("C20", "kmeans_repro.py", "affine", {}), ("C03", "gmm_repro.py", "ml_mstep", {}), ("C05", "gmm_repro.py", "map_mstep", {}), ("C07", "fa_repro.py", "phases", {}), ("C09", "fa_repro.py", "phases", {}), ("C15.lwl", "gmm_repro.py", "affine", {}), ("C15.estep", "gmm_repro.py", "affine", {}), ("C15.ml", "gmm_repro.py", "affine", {}), ("C15.fa", "fa_repro.py", "affine", {}), ("C15.map", "gmm_repro.py", "map_mstep", {}), ("C15", "gmm_repro.py", "affine", {})]
 TRUSTED = ["rotation invariance of the Euclidean norm (k-means under rotations)", "argmin_k f(k) = argmin_k s^2 f(k) for s != 0",
            "log atoms denote log|.| (so log(a^2 v) = 2 log|a| + log v)"]
 ASSUMPTIONS = ["no variance floor / count floor active (or floors transformed with the features)", "a_d != 0"]
